@@ -51,18 +51,25 @@ def _alarm(signum, frame):
 
 def install_watchdog():
     signal.signal(signal.SIGALRM, _alarm)
+    signal.signal(signal.SIGPROF, _alarm)
 
 
 class watchdog:
-    """with watchdog(2.0): ... ; raises Watchdog inside the block if it runs too long."""
+    """with watchdog(2.0): ... ; raises Watchdog inside the block if it runs too long.
+
+    The budget is CPU time of this process (ITIMER_PROF): a loaded machine must never turn a correct run into a
+    "does not terminate" verdict (a thorough C01 run once reported nine 1-second timeouts on a box saturated by other
+    jobs). A wall-clock backstop of max(60 s, 30 x budget) catches code that blocks without using the CPU."""
 
     def __init__(self, seconds: float):
         self.seconds = seconds
 
     def __enter__(self):
-        signal.setitimer(signal.ITIMER_REAL, self.seconds)
+        signal.setitimer(signal.ITIMER_PROF, self.seconds)
+        signal.setitimer(signal.ITIMER_REAL, max(60.0, 30 * self.seconds))
 
     def __exit__(self, *a):
+        signal.setitimer(signal.ITIMER_PROF, 0)
         signal.setitimer(signal.ITIMER_REAL, 0)
         return False
 
